@@ -122,10 +122,8 @@ theorem clear_metadata_spec (s : InScope) (c : Nat) :
     · simp [h0, h1]
       intro _ hw; simp [hw]
 
--- GOAL (not proved): view_refines_parse — composition of the lemmas above with C04.parse_lossless: for every byte
---   string accepted by `Psbt.parse`, `View.open` at any offset succeeds and `View.input i` / `View.output j` /
---   `View.vin` / `View.vout` equal the parsed PSBT's. Checked on every run by the harness predicate
---   "view == in-memory PSBT" and by the `view.all` correspondence.
+-- view_refines_parse — the composition of the lemmas above with the decomposition `PSBT.parse` performs — is proved
+--   in Props/C05X.lean (`view_refines_parse_v0_partial`, `view_refines_parse_v2_partial`).
 -- GOAL (not proved): write_to_eq_memory — `View.writeTo` parses to sign-then-compress in memory (correspondence
 --   `view.write` and harness predicate).
 
